@@ -173,8 +173,16 @@ package query
 //@ func query.FileNameSetFromProto
 //@   trusted
 //@   assigns nothing
-//@ func query.RawConfigFromProto
+// RawConfigFromProto is verified (it was trusted until F72: it read p.Flags of
+// an unset message). The generated getter is the nil-safe way in.
+//@ func v1.(*RawConfig).GetFlags
 //@   trusted
+//@   flag only_for=query.RawConfigFromProto
+//@   assigns nothing
+//@ func query.RawConfigFromProto
+//@   loop 1:
+//@     invariant true
+//@   ensures true
 //@   assigns nothing
 
 // The parser calls mapQueryList and Simplify on trees it is still building (its
